@@ -455,6 +455,12 @@ func (w *netWorld) exec(it Item) {
 		w.evhNext(int(it.a(0)))
 	case "evnextcancel":
 		w.evhNextCancel(int(it.a(0)))
+	case "evpolldead":
+		// NextPeerEvent with a context that is already cancelled: a pending event may be returned or
+		// the context error, but no event may get lost
+		if nx := w.evhNextCtx(int(it.a(0)), true); nx != nil {
+			s.probe("c18_poll_with_cancelled_context")
+		}
 	case "evstop":
 		w.evhStop(int(it.a(0)))
 	default:
@@ -669,13 +675,18 @@ func (w *netWorld) evh(k int) *netEvh {
 }
 
 // evhNext starts one NextPeerEvent call on the handler (it may block; several may be pending).
-func (w *netWorld) evhNext(k int) *netNext {
+func (w *netWorld) evhNext(k int) *netNext { return w.evhNextCtx(k, false) }
+
+func (w *netWorld) evhNextCtx(k int, dead bool) *netNext {
 	e := w.evh(k)
 	if e == nil {
 		return nil
 	}
 	s := w.s
 	ctx, cancel := context.WithCancel(context.Background())
+	if dead {
+		cancel()
+	}
 	nx := &netNext{cancel: cancel}
 	e.mu.Lock()
 	nx.id = len(e.events)*1000 + len(e.pending)
